@@ -32,8 +32,21 @@ func main() {
 	maxpaths := fs.Int("maxpaths", 0, "path budget override")
 	delays := fs.Int("delays", -1, "delay bound override")
 	nosum := fs.Bool("nosum", false, "disable callee summarisation")
-	fs.Parse(os.Args[2:])
-	args := fs.Args()
+	// positional arguments may come before or after the flags
+	rest := os.Args[2:]
+	var args []string
+	for len(rest) > 0 {
+		if strings.HasPrefix(rest[0], "-") {
+			fs.Parse(rest)
+			rest = fs.Args()
+			if len(rest) > 0 && strings.HasPrefix(rest[0], "-") {
+				break
+			}
+			continue
+		}
+		args = append(args, rest[0])
+		rest = rest[1:]
+	}
 	switch cmd {
 	case "run":
 		if len(args) != 2 {
